@@ -37,9 +37,9 @@ fn interval_case(l: Vec<i64>, r: Vec<i64>, lower: i64, upper: i64, bound: usize,
         let a = env.stream(mk(&l2, 0)).batch_mode(BatchMode::fixed(1));
         let b = env.stream(mk(&r2, 100)).batch_mode(BatchMode::fixed(1));
         let out = if keyed {
-            a.key_by(|x: &i64| x % 2).interval_join(b.key_by(|x: &i64| x % 2), lower, upper).drop_key().collect_vec()
+            crate::kit::probe(a.key_by(|x: &i64| x % 2).interval_join(b.key_by(|x: &i64| x % 2), lower, upper).drop_key(), 8).collect_vec()
         } else {
-            a.interval_join(b, lower, upper).collect_vec()
+            crate::kit::probe(a.interval_join(b, lower, upper), 8).collect_vec()
         };
         env.execute_blocking();
         log_sink("sink0", 0, out.get());
@@ -50,6 +50,12 @@ fn interval_case(l: Vec<i64>, r: Vec<i64>, lower: i64, upper: i64, bound: usize,
         match &r.status {
             Status::Done => {}
             other => return Err(Fail::new("c08-interval-abnormal", format!("{d2}: {:?}", other))),
+        }
+        // right behind the join: pairs, one end of iteration, terminate
+        let kinds: Vec<u8> = r.log.iter().filter_map(|e| if let Ev::Probe(8, _, k, _, _) = e { if *k != crate::kit::K_FB && *k != crate::kit::K_WM { Some(*k) } else { None } } else { None }).collect();
+        let nk = kinds.len();
+        if !(nk >= 2 && kinds[nk - 1] == crate::kit::K_TERM && kinds[nk - 2] == crate::kit::K_FAR && kinds.iter().filter(|k| **k == crate::kit::K_FAR).count() == 1) {
+            return Err(Fail::new("c08-interval-markers", format!("{d2}: behind the join the element kinds are {:?} (1 pair, 4 terminate, 5 end of iteration): expected pairs, one end of iteration, terminate", kinds)));
         }
         let (n, rows) = sink_rows(&r.log, "sink0");
         if n != 1 {
